@@ -245,15 +245,23 @@ def minimise_history(bins, hist, depth0, pred):
 class BigProject:
     """n entries src/fNN.rs with given size classes; no structure violations. Class 'e' is an entry
     that cannot be read (a directory with that name): listed in --files it yields an I/O error,
-    which is a warning on stderr and no result."""
+    which is a warning on stderr and no result. Classes 'y' / 'r' are byte-identical files of 12 lines
+    starting with '#': comments in Python (src/fNN.py, 0 code lines, passes), code in Rust (src/fNN.rs, fails).
+    Class 'N' is an over-long Rust file whose name breaks the naming rule of src (src/FNNBad.rs): a directory
+    scan reports a naming_convention violation at the same path, which a content entry grandfathers too.
+    Every file gets an old mtime (not racy-clean), so the in-memory SLOC cache is really used."""
+    TWIN = "# generated line\n" * 12
+    OLD = 1577836800
 
     def __init__(self, exe, sizes, baseline_idx, ff_cfg=False, wae=False):
         self.exe = exe
         self.sb = Sandbox(prefix="sgv-c11-")
         self.n = len(sizes)
-        self.paths = ["./src/f%02d.rs" % i for i in range(self.n)]
+        self.paths = [("./src/f%02d.py" % i) if c == "y" else (("./src/F%02dBad.rs" % i) if c == "N" else "./src/f%02d.rs" % i) for i, c in enumerate(sizes)]
         self.ff_cfg = ff_cfg
-        cfg = ['version = "2"', "[scanner]", 'exclude = [".sloc-guard*"]', "[content]", "max_lines = 10", "warn_threshold = 0.8", 'extensions = ["rs"]']
+        cfg = ['version = "2"', "[scanner]", 'exclude = [".sloc-guard*"]', "[content]", "max_lines = 10", "warn_threshold = 0.8", 'extensions = ["rs", "py"]']
+        if "N" in sizes:
+            cfg += ["[[structure.rules]]", 'scope = "src"', 'file_naming_pattern = "^[a-z0-9_]+\\\\.(rs|py)$"']
         if ff_cfg:
             cfg += ["[check]", "fail_fast = true"]
         self.cfg_ff = "\n".join(cfg) + "\n"
@@ -268,14 +276,20 @@ class BigProject:
             self.resize(p, ch)
         self.bl = None
         if baseline_idx is not None:
-            self.bl = {self.paths[i]: ("C", SIZE[sizes[i]], file_hash(self.paths[i], SIZE[sizes[i]])) for i in baseline_idx}
+            self.bl = {self.paths[i]: ("C", self.res[self.paths[i]]["code"], self.res[self.paths[i]]["hash"]) for i in baseline_idx}
             write_disk(self.sb.proj, self.bl)
         self.spawns = 0
 
     def resize(self, p, ch):
-        n = SIZE[ch]
-        self.sb.write(p, body(p, n))
-        self.res[p] = {"path": p, "kind": "n", "status": "F" if n > 10 else ("W" if n >= 8 else "P"), "code": n, "limit": 10, "hash": file_hash(p, n)}
+        if ch in "yr":
+            text, n = self.TWIN, (0 if ch == "y" else 12)
+        else:
+            n = SIZE["o" if ch == "N" else ch]
+            text = body(p, n)
+        fp = self.sb.write(p, text)
+        os.utime(fp, (self.OLD, self.OLD))
+        self.res[p] = {"path": p, "kind": "n", "status": "F" if n > 10 else ("W" if n >= 8 else "P"), "code": n, "limit": 10,
+                       "hash": hashlib.sha256(text.encode()).hexdigest()}
 
     def check(self, fl, files=None, threads=1):
         """a run with arbitrary flags (ratchet phases); returns (exit, observed results, stderr)"""
@@ -331,12 +345,18 @@ def trace_case(exe, sizes, bl_idx, orders, threads_list, reps, ff_cfg, wae, wo, 
             files = None if full_scan else [pj.paths[i] for i in order]
             rc0, obs0, raw0 = pj.run(False, files, 1, wae, wo)
             R = [pre(r) for r in obs0]
+            # independent evaluation of every listed file: the run without fail-fast must agree with it
+            # whatever the order (byte-identical files in two languages must not share counts)
+            want = sorted((p, pj.res[p]["status"], pj.res[p]["code"]) for p in (files if files is not None else pj.paths) if p in pj.res)
+            got = sorted((r["path"], r["status"], r["code"]) for r in R if r["kind"] in ("n", "c"))
+            eval_ok = (want == got)
+            eval_diff = [x for x in got if x not in want][:2]
             for th in threads_list:
                 for _ in range(reps):
                     rc, obs, raw = pj.run(True, files, th, wae, wo)
                     out.append({"sizes": sizes, "baseline": bl_idx, "order": list(order) if order is not None else None, "threads": th, "ff_cfg": ff_cfg,
                                 "wae": wae, "wo": wo, "R": R, "Rp": [pre(r) for r in obs], "obs": obs, "exit": rc, "exit_noff": rc0,
-                                "disk": pj.bl, "full_scan": full_scan})
+                                "disk": pj.bl, "full_scan": full_scan, "eval_ok": eval_ok, "eval_diff": eval_diff})
         return out, pj.spawns
     finally:
         pj.close()
@@ -348,7 +368,8 @@ def validate_traces(model, traces):
     for t in traces:
         ob = w_bl(view(t["disk"]))   # ff_sub / ff_seq take the loaded (re-keyed) baseline, check_step the file
         l1.append("ffsub\t%s\t%s\t%s" % (w_results(t["R"]), w_results(t["Rp"]), ob))
-        l2.append("ffseq\t%s\t%s" % (w_results(t["R"]), ob))
+        # the loop runs over the files only; structure results are appended afterwards (C11_structure_results_appended)
+        l2.append("ffseq\t%s\t%s" % (w_results([r for r in t["R"] if r["kind"] in ("n", "c")]), ob))
         fl = {"b": t["disk"] is not None, "wae": t["wae"], "wo": t["wo"], "ff": True}
         l3.append("step\t%s\t%s\t_\t%s" % (w_flags(fl), w_results(t["Rp"]), w_bl(t["disk"])))
     o1, e1 = run_sharded(model, l1)
